@@ -25,6 +25,8 @@ type genParams struct {
 	PCancel   float64
 	PNil      float64
 	PEres     float64
+	PDyn      float64 // probability that a post callback makes one of the pending Connect calls (dynamic wiring)
+	PPanic    float64 // probability that a prep / exec / post callback panics
 	PBLeaf    float64 // probability that a leaf is a (one-item) batch node
 	PEmptyAct float64
 	MaxVisits int
@@ -101,6 +103,12 @@ func (h *hashScript) Get(k skey) Outcome {
 	}
 	if h.u(k, 9) < h.p.PCancel {
 		o.Cancel = true
+	}
+	if k.Phase == "post" && h.p.PDyn > 0 && h.u(k, 12) < h.p.PDyn {
+		o.Conns = 1 + int(h.u(k, 13)*2)
+	}
+	if k.Phase != "fb" && h.p.PPanic > 0 && h.u(k, 11) < h.p.PPanic {
+		o = Outcome{Out: "panic"}
 	}
 	if f, ok := h.override[k]; ok {
 		o = f(o)
@@ -202,6 +210,12 @@ func genEngineCfg(r *rand.Rand, p genParams) EngineCfg {
 		c.Conns = append(c.Conns, ops)
 		c.Ctx0 = append(c.Ctx0, p.PCancel > 0 && r.Intn(12) == 0)
 	}
+	if p.PDyn > 0 {
+		c.Dyn = true
+		for _, ops := range c.Conns {
+			c.Pre = append(c.Pre, r.Intn(len(ops)+1))
+		}
+	}
 	if p.Mode == "zerobudget" {
 		// a retry budget of zero or less: the attempt loop never runs (outside every property; conformance with the
 		// specification only)
@@ -214,6 +228,9 @@ func genEngineCfg(r *rand.Rand, p genParams) EngineCfg {
 		}
 	}
 	c.Outs = []string{"ok", "err"}
+	if p.PPanic > 0 {
+		c.Outs = append(c.Outs, "panic")
+	}
 	c.Cancel = p.PCancel > 0
 	c.CtxKind = "cancel"
 	if c.Cancel {
@@ -258,6 +275,12 @@ func paramsFor(mode string) genParams {
 			p.PCancel = 0
 			p.MaxVisits = 8
 		}
+	case "dynwire": // some Connect calls are made from inside post callbacks while the flow runs
+		p.MaxFlows, p.MaxLeaves, p.MaxRuns = 3, 5, 2
+		p.PExecErr, p.PDyn = 0.1, 0.5
+	case "panic": // a callback panics (with a string or with an error value)
+		p.MaxFlows, p.MaxLeaves, p.MaxRuns = 2, 4, 2
+		p.PExecErr, p.PPanic = 0.3, 0.12
 	case "zerobudget":
 		p.MaxFlows, p.MaxLeaves, p.MaxRuns = 2, 4, 1
 		p.PExecErr, p.PFbErr = 0.3, 0.3
@@ -324,6 +347,9 @@ func genEngineScenarios(seed int64, count int, mode string, emit func(cfg Engine
 		cfg.GenSeed = fmt.Sprintf("%d", r.Uint64())
 		cfg.GenMode = mode
 		cfg.Outs = []string{"ok", "err", "nil", "eres"}
+		if p.PPanic > 0 {
+			cfg.Outs = append(cfg.Outs, "panic")
+		}
 		assignKinds(&cfg)
 		evs, _ := runEngineScenario(cfg, scriptForGenerated(cfg))
 		emit(cfg, "gen:"+mode, evs)
